@@ -333,7 +333,7 @@ pub fn gen_bedrock(c: &mut Chooser) -> BedrockState {
 // ---------------------------------------------------------------------------
 // Legacy (1.6, 1.4, beta 1.8)
 
-#[derive(Clone, Copy, Debug, PartialEq, Eq)]
+#[derive(Clone, Copy, Debug, PartialEq, Eq, Hash)]
 pub enum LegacyKind {
     V1_6,
     V1_4,
